@@ -276,13 +276,14 @@ func (x *Exec) twinStats() StatsRec {
 
 // CbRec is one observer callback invocation with a snapshot of the world as seen from inside it.
 type CbRec struct {
-	O      int        `json:"o"`
-	E      ecs.Entity `json:"e"`
-	Alive  bool       `json:"alive"`
-	Seen   int        `json:"seen"`
-	Locked bool       `json:"locked"`
-	Ents   []EntRec   `json:"ents"`
-	Panic  bool       `json:"panic"`
+	O      int              `json:"o"`
+	E      ecs.Entity       `json:"e"`
+	Alive  bool             `json:"alive"`
+	Seen   int              `json:"seen"`
+	Locked bool             `json:"locked"`
+	Ents   []EntRec         `json:"ents"`
+	Panic  bool             `json:"panic"`
+	PV     map[string]int64 `json:"pv"` // typed observers: values behind the pointers handed to the callback
 }
 
 type LogOp struct {
@@ -316,6 +317,7 @@ type LogOp struct {
 	Ok     bool                  `json:"ok"`
 	Res    Visit                 `json:"res"`
 	Cbs    []CbRec               `json:"cbs"`
+	Om     []ecs.Entity          `json:"om"` // handle of every creation ordinal (since the last Reset)
 	St     State                 `json:"st"`
 }
 
@@ -369,6 +371,8 @@ type Config struct {
 	MaxEnt    int      `json:"maxent"`    // driver: soft bound on the number of alive entities
 	Observers int      `json:"observers"` // driver: max simultaneously registered observers (0 = none)
 	ResetP    int      `json:"resetp"`    // driver: per-mille probability of World.Reset / DumpLoad per step
+	TypedObs  bool     `json:"typedobs"`  // register observers through Observer1..4 where the observed set allows
+	Arity     bool     `json:"arity"`     // driver: draw component sets from the instantiated tuples of all arities
 	QMis      bool     `json:"qmis"`      // run the query / mapper misuse battery after each history (C20)
 	Stats     bool     `json:"stats"`     // emit a stats event (with replayed twin) after each history
 	Queries   int      `json:"queries"`   // driver: max simultaneously open queries (0 = none)
@@ -405,6 +409,8 @@ type Exec struct {
 	filters    map[int]*regFilter
 	pool       map[string]*regFilter
 	obs        map[int]*ecs.Observer
+	tobs       map[int]TypedObserver
+	tsets      [][]string
 	queries    map[int]*openQuery
 	cur        *LogOp
 	opIndex    int
@@ -417,10 +423,11 @@ type Exec struct {
 	seq        int
 	Events     int
 	Panics     int
+	Cover      map[string]int // API variants exercised (C14)
 }
 
 func NewExec(cfg Config, out *bufio.Writer) *Exec {
-	return &Exec{Cfg: cfg, Out: out, rng: rand.New(rand.NewSource(cfg.Seed))}
+	return &Exec{Cfg: cfg, Out: out, rng: rand.New(rand.NewSource(cfg.Seed)), Cover: map[string]int{}}
 }
 
 func (x *Exec) emit(v any) {
@@ -457,6 +464,7 @@ func (x *Exec) newWorld() {
 	x.filters = map[int]*regFilter{}
 	x.pool = map[string]*regFilter{}
 	x.obs = map[int]*ecs.Observer{}
+	x.tobs = map[int]TypedObserver{}
 	x.queries = map[int]*openQuery{}
 	x.oldObs = map[int]oldObs{}
 	x.obsSpec = map[int]GenObs{}
@@ -493,7 +501,7 @@ func compsOf(names []string) []ecs.Comp {
 // callback is what every registered observer runs: it records a snapshot of the world as visible from inside.
 func (x *Exec) callback(id int) func(e ecs.Entity) {
 	return func(e ecs.Entity) {
-		rec := CbRec{O: id, E: e, Ents: []EntRec{}}
+		rec := CbRec{O: id, E: e, Ents: []EntRec{}, PV: map[string]int64{}}
 		func() {
 			defer func() {
 				if r := recover(); r != nil {
@@ -548,14 +556,65 @@ func (x *Exec) tgMap(m FlexMap[int]) map[string]ecs.Entity {
 	return r
 }
 
+// canon returns the registered type parameter order for a component set: any (seeded) permutation up to arity 3,
+// the instantiated tuple with the same set above.
+func (x *Exec) canon(names []string) []string {
+	if len(names) <= 3 {
+		return x.order(names)
+	}
+	set := map[string]bool{}
+	for _, n := range names {
+		set[n] = true
+	}
+	for _, key := range sortedKeys(mapCtors) {
+		t := strings.Split(key, ",")
+		if len(t) != len(names) {
+			continue
+		}
+		ok := true
+		for _, c := range t {
+			if !set[c] {
+				ok = false
+			}
+		}
+		if ok {
+			return t
+		}
+	}
+	panic(harnessBug{"no instantiation for component set " + strings.Join(names, ",")})
+}
+
+func (x *Exec) canonOrNil(names []string) (t []string) {
+	defer func() {
+		if recover() != nil {
+			t = nil
+		}
+	}()
+	t = x.canon(names)
+	if _, ok := filterCtors[strings.Join(t, ",")]; !ok {
+		return nil
+	}
+	return t
+}
+
+func sortedKeys[V any](m map[string]V) []string {
+	ks := make([]string, 0, len(m))
+	for k := range m {
+		ks = append(ks, k)
+	}
+	sort.Strings(ks)
+	return ks
+}
+
 func (x *Exec) mapFor(tuple []string) TypedMap {
 	key := strings.Join(tuple, ",")
+	x.Cover[fmt.Sprintf("Map%d", len(tuple))]++
 	if m, ok := x.maps[key]; ok {
 		return m
 	}
 	ctor, ok := mapCtors[key]
 	if !ok {
-		panic("harness: no typed map instantiation for " + key)
+		panic(harnessBug{"no typed map instantiation for " + key})
 	}
 	m := ctor(x.w)
 	x.maps[key] = m
@@ -564,12 +623,13 @@ func (x *Exec) mapFor(tuple []string) TypedMap {
 
 func (x *Exec) exFor(tuple []string, rem []string) TypedExchange {
 	key := strings.Join(tuple, ",") + "|" + strings.Join(rem, ",")
+	x.Cover[fmt.Sprintf("Exchange%d", len(tuple))]++
 	if m, ok := x.exs[key]; ok {
 		return m
 	}
 	ctor, ok := exCtors[strings.Join(tuple, ",")]
 	if !ok {
-		panic("harness: no typed exchange instantiation for " + key)
+		panic(harnessBug{"no typed exchange instantiation for " + key})
 	}
 	m := ctor(x.w)
 	cs := []ecs.Comp{}
@@ -593,6 +653,24 @@ func (x *Exec) order(names []string) []string {
 		r.Shuffle(len(t), func(i, j int) { t[i], t[j] = t[j], t[i] })
 	}
 	return t
+}
+
+func (x *Exec) ordOf(h ecs.Entity) int {
+	for i := len(x.ords) - 1; i >= 0; i-- {
+		if x.ords[i] == h {
+			return i + 1
+		}
+	}
+	return 0
+}
+
+func (x *Exec) compIndex(c string) int {
+	for i, n := range x.Cfg.Comps {
+		if n == c {
+			return i
+		}
+	}
+	return 99
 }
 
 func valsFor(tuple []string, vals map[string]int64) []int64 {
@@ -751,11 +829,24 @@ func (x *Exec) buildFilter(with, without []string, excl bool, ft map[string]ecs.
 	tuple := x.order(with)
 	n := len(tuple)
 	if n > 3 {
+		// the longest instantiated prefix (arity <= 8) of the canonical order of the whole set, else 3
 		n = 3
+		if len(tuple) <= 8 {
+			if c := x.canonOrNil(with); c != nil {
+				tuple, n = c, len(c)
+			}
+		}
+	}
+	for n > 0 {
+		if _, ok := filterCtors[strings.Join(tuple[:n], ",")]; ok {
+			break
+		}
+		n--
 	}
 	if x.Cfg.Path == "unsafe" {
 		n = 0
 	}
+	x.Cover[fmt.Sprintf("Filter%d", n)]++
 	if n == 0 {
 		f0 := ecs.NewFilter0(x.w)
 		cs := []ecs.Comp{}
@@ -920,6 +1011,7 @@ func (x *Exec) run(op GenOp, i int) LogOp {
 			x.oldFilters[id] = rf
 		}
 		x.obs = map[int]*ecs.Observer{}
+		x.tobs = map[int]TypedObserver{}
 		x.queries = map[int]*openQuery{}
 		x.ords = x.ords[:0]
 		x.issued = x.issued[:0]
@@ -929,6 +1021,7 @@ func (x *Exec) run(op GenOp, i int) LogOp {
 	if !x.quiet {
 		lo.St = x.project()
 	}
+	lo.Om = append([]ecs.Entity{}, x.ords...)
 	return lo
 }
 
@@ -959,7 +1052,7 @@ func (x *Exec) dispatch(op GenOp, e ecs.Entity, tg map[string]ecs.Entity, lo *Lo
 				x.writeUnsafe(h, op.Vals)
 			}
 		default:
-			tuple := x.order(op.Add)
+			tuple := x.canon(op.Add)
 			m := x.mapFor(tuple)
 			if noinit {
 				h = m.NewEntityFn(nil, x.typedRels(tuple, tg))
@@ -984,14 +1077,14 @@ func (x *Exec) dispatch(op GenOp, e ecs.Entity, tg map[string]ecs.Entity, lo *Lo
 			})
 			return
 		}
-		tuple := x.order(op.Add)
+		tuple := x.canon(op.Add)
 		m := x.mapFor(tuple)
 		k := 0
 		m.NewBatchFn(op.N, func(h ecs.Entity, ps []*int64) {
 			k++
 			bv := BVal{E: h, V: map[string]int64{}}
 			for i := range ps {
-				v := int64(1000*k + 10*len(x.ords) + i + 1)
+				v := int64(1000*k + 10*len(x.ords) + x.compIndex(tuple[i]) + 1)
 				*ps[i] = v
 				bv.V[tuple[i]] = v
 			}
@@ -1013,8 +1106,8 @@ func (x *Exec) dispatch(op GenOp, e ecs.Entity, tg map[string]ecs.Entity, lo *Lo
 			}
 			return
 		}
-		tuple := x.order(op.Add)
-		if x.Cfg.Path == "exchange" {
+		tuple := x.canon(op.Add)
+		if x.Cfg.Path == "exchange" && len(tuple) <= 8 {
 			ex := x.exFor(tuple, nil)
 			if noinit {
 				ex.AddFn(e, nil, x.typedRels(tuple, tg))
@@ -1039,9 +1132,9 @@ func (x *Exec) dispatch(op GenOp, e ecs.Entity, tg map[string]ecs.Entity, lo *Lo
 			x.exFor([]string{x.Cfg.Comps[0]}, op.Rem).Remove(e)
 			return
 		}
-		x.mapFor(x.order(op.Rem)).Remove(e)
+		x.mapFor(x.canon(op.Rem)).Remove(e)
 	case "Exchange":
-		if unsafePath || len(op.Add) == 0 {
+		if unsafePath || len(op.Add) == 0 || len(op.Add) > 8 {
 			u.Exchange(e, x.idsOf(op.Add), x.idsOf(op.Rem), x.unsafeRels(tg)...)
 			lo.Late = true
 			if !noinit {
@@ -1049,7 +1142,7 @@ func (x *Exec) dispatch(op GenOp, e ecs.Entity, tg map[string]ecs.Entity, lo *Lo
 			}
 			return
 		}
-		tuple := x.order(op.Add)
+		tuple := x.canon(op.Add)
 		ex := x.exFor(tuple, op.Rem)
 		if noinit {
 			ex.ExchangeFn(e, nil, x.typedRels(tuple, tg))
@@ -1063,7 +1156,7 @@ func (x *Exec) dispatch(op GenOp, e ecs.Entity, tg map[string]ecs.Entity, lo *Lo
 			x.writeUnsafe(e, op.Vals)
 			return
 		}
-		tuple := x.order(op.Add)
+		tuple := x.canon(op.Add)
 		x.mapFor(tuple).Set(e, valsFor(tuple, op.Vals))
 	case "SetRel":
 		if unsafePath {
@@ -1075,7 +1168,7 @@ func (x *Exec) dispatch(op GenOp, e ecs.Entity, tg map[string]ecs.Entity, lo *Lo
 			keys = append(keys, k)
 		}
 		sort.Strings(keys)
-		tuple := x.order(keys)
+		tuple := x.canon(keys)
 		x.mapFor(tuple).SetRelations(e, x.typedRels(tuple, tg))
 	case "Kill":
 		w.RemoveEntity(e)
@@ -1103,11 +1196,11 @@ func (x *Exec) dispatch(op GenOp, e ecs.Entity, tg map[string]ecs.Entity, lo *Lo
 	case "AddBatch", "ExchangeBatch":
 		rf := x.filterFor(op.F, op.Flt)
 		b := x.batchOf(rf, x.tgMap(op.Flt.Qt))
-		tuple := x.order(op.Add)
+		tuple := x.canon(op.Add)
 		fn := func(h ecs.Entity, ps []*int64) {
 			bv := BVal{E: h, V: map[string]int64{}}
 			for i := range ps {
-				v := int64(1000*(len(lo.Bvals)+1)) + 10*int64(h.ID()) + int64(i) + 3
+				v := 100000 + 100*int64(x.ordOf(h)) + int64(x.compIndex(tuple[i])) + 3
 				*ps[i] = v
 				bv.V[tuple[i]] = v
 			}
@@ -1144,7 +1237,7 @@ func (x *Exec) dispatch(op GenOp, e ecs.Entity, tg map[string]ecs.Entity, lo *Lo
 		if x.Cfg.Path == "exchange" {
 			x.exFor([]string{x.Cfg.Comps[0]}, op.Rem).RemoveBatch(b, cb)
 		} else {
-			x.mapFor(x.order(op.Rem)).RemoveBatch(b, cb)
+			x.mapFor(x.canon(op.Rem)).RemoveBatch(b, cb)
 		}
 	case "SetRelBatch":
 		rf := x.filterFor(op.F, op.Flt)
@@ -1154,7 +1247,7 @@ func (x *Exec) dispatch(op GenOp, e ecs.Entity, tg map[string]ecs.Entity, lo *Lo
 			keys = append(keys, k)
 		}
 		sort.Strings(keys)
-		tuple := x.order(keys)
+		tuple := x.canon(keys)
 		x.mapFor(tuple).SetRelationsBatch(b, func(h ecs.Entity) {
 			lo.Bvals = append(lo.Bvals, BVal{E: h, V: map[string]int64{}})
 		}, x.typedRels(tuple, tg))
@@ -1209,6 +1302,30 @@ func (x *Exec) dispatch(op GenOp, e ecs.Entity, tg map[string]ecs.Entity, lo *Lo
 			return
 		}
 		x.obsSpec[op.O] = op.Obs
+		if x.Cfg.TypedObs && len(op.Obs.Obs) >= 1 && len(op.Obs.Obs) <= 4 {
+			tuple := x.canon(op.Obs.Obs)
+			if ctor, ok := obsCtors[strings.Join(tuple, ",")]; ok {
+				id := op.O
+				plain := x.callback(id)
+				to := ctor(x.eventType(op.Obs.Ev), nil, compsOf(op.Obs.With), compsOf(op.Obs.Without), op.Obs.Excl,
+					func(e ecs.Entity, ps []*int64) {
+						plain(e)
+						if x.cur != nil && len(x.cur.Cbs) > 0 {
+							rec := &x.cur.Cbs[len(x.cur.Cbs)-1]
+							for i, c := range tuple {
+								if ps[i] != nil {
+									rec.PV[c] = *ps[i]
+								}
+							}
+						}
+					})
+				to.Register(w)
+				x.tobs[op.O] = to
+				x.Cover[fmt.Sprintf("Observer%d", len(tuple))]++
+				return
+			}
+		}
+		x.Cover["Observer"]++
 		o := ecs.Observe(x.eventType(op.Obs.Ev)).For(compsOf(op.Obs.Obs)...).With(compsOf(op.Obs.With)...)
 		if op.Obs.Excl {
 			o = o.Exclusive()
@@ -1218,6 +1335,11 @@ func (x *Exec) dispatch(op GenOp, e ecs.Entity, tg map[string]ecs.Entity, lo *Lo
 		o.Do(x.callback(op.O)).Register(w)
 		x.obs[op.O] = o
 	case "UnregO":
+		if to, ok := x.tobs[op.O]; ok {
+			to.Unregister(w)
+			delete(x.tobs, op.O)
+			return
+		}
 		x.obs[op.O].Unregister(w)
 		delete(x.obs, op.O)
 	case "Emit":
